@@ -38,14 +38,17 @@ func (fr *frame) effectsOf(blocks map[*ssa.BasicBlock]bool) (keys map[string]boo
 		}
 		return v, nil
 	}
+	fr.nonAllocWrites = map[string]bool{}
 	markStore := func(addrV ssa.Value) {
 		base, path := baseOf(addrV)
+		fromLoopAlloc := false
 		switch bb := base.(type) {
 		case *ssa.Alloc:
 			if !bb.Heap || isArrayAlloc(bb) {
 				localAllocs[bb] = true
 				return
 			}
+			fromLoopAlloc = blocks[bb.Block()]
 		case *ssa.Global:
 			keys[fc.globalComp(bb)] = true
 			return
@@ -59,11 +62,17 @@ func (fr *frame) effectsOf(blocks map[*ssa.BasicBlock]bool) (keys map[string]boo
 			if len(path) > 0 && path[0] >= 0 {
 				k, _ := fc.fieldComp(pt.Elem(), path[0])
 				keys[k] = true
+				if !fromLoopAlloc {
+					fr.nonAllocWrites[k] = true
+				}
 			} else {
 				st := pt.Elem().Underlying().(*types.Struct)
 				for i := 0; i < st.NumFields(); i++ {
 					k, _ := fc.fieldComp(pt.Elem(), i)
 					keys[k] = true
+					if !fromLoopAlloc {
+						fr.nonAllocWrites[k] = true
+					}
 				}
 			}
 			return
@@ -73,6 +82,9 @@ func (fr *frame) effectsOf(blocks map[*ssa.BasicBlock]bool) (keys map[string]boo
 			return
 		}
 		keys[fc.cellComp(pt.Elem())] = true
+		if !fromLoopAlloc {
+			fr.nonAllocWrites[fc.cellComp(pt.Elem())] = true
+		}
 	}
 	for b := range blocks {
 		for _, in := range b.Instrs {
@@ -114,6 +126,7 @@ func (fr *frame) effectsOf(blocks map[*ssa.BasicBlock]bool) (keys map[string]boo
 				}
 				for k := range ks {
 					keys[k] = true
+					fr.nonAllocWrites[k] = true
 				}
 				// locals passed by address
 				for _, arg := range in.Common().Args {
@@ -292,6 +305,7 @@ func (fr *frame) run(entry *State, entryReach string) {
 			fr.loopEntry[fr.ordinal[b]] = st.clone()
 			fr.checkInvariants(b, preds, false)
 			keys, all, locals := fr.modifiedInLoop(b)
+			preTop := st.comp["TOP"]
 			if all {
 				fc.havocAll(st)
 			}
@@ -310,7 +324,12 @@ func (fr *frame) run(entry *State, entryReach string) {
 				if all && isHeapKey(k) {
 					continue
 				}
+				pre := fc.lookup(st, k)
 				st.comp[k] = fc.freshConst(fmt.Sprintf("%slh%d_%s", fr.prefix, b.Index, k), fc.compSort[k])
+				if (strings.HasPrefix(k, "H:") || strings.HasPrefix(k, "C:")) && !fr.nonAllocWrites[k] {
+					// the loop writes this component only at objects it allocates itself: older objects are unchanged
+					fc.fact("", "(forall ((r Int)) (! (=> (< r %s) (= (select %s r) (select %s r))) :pattern ((select %s r))))", preTop, st.comp[k], pre, st.comp[k])
+				}
 			}
 			for al := range locals {
 				if a, ok := fr.addrs[al]; ok && a.kind == 1 {
